@@ -40,10 +40,15 @@ def generate(streams, tier):
         ps = rw.sample([u for u in range(n) if u != v], rw.randint(0, min(3, n - 1)))
         pool.append((v, ps))
     for _ in range(rw.randint(4, 40 if tier == "thorough" else 16)):
-        k = weighted(rw, [("local", 8), ("score_model", 2), ("equivalent", 2), ("wrapper", 2)])
+        k = weighted(rw, [("local", 8), ("score_model", 2), ("equivalent", 2), ("wrapper", 2), ("partial_sn", 1 if n >= 2 and len(rows) >= 2 else 0)])
         if k == "local":
             v, ps = rw.choice(pool)
             ops.append({"op": "local", "score": rw.choice(SCORES), "v": v, "parents": shuffled(rw, ps) if rw.random() < 0.5 else list(ps)})
+        elif k == "partial_sn":
+            # state names declared for some variables only, ONE dict object handed to two scorers on different row subsets
+            v, ps = rw.choice(pool)
+            ops.append({"op": "partial_sn", "score": rw.choice(SCORES), "v": v, "parents": list(ps), "declared_vars": rw.sample(range(n), rw.randint(1, n - 1)),
+                        "subset": sorted(rw.sample(range(len(rows)), rw.randint(1, len(rows))))})
         elif k == "score_model":
             ops.append({"op": "score_model", "score": rw.choice(SCORES), "dag": _rand_dag(rw, n)})
         elif k == "equivalent":
@@ -191,6 +196,9 @@ def execute(case, ctx):
         ctx.step_no = i
         ctx.steps += 1
         kind = op["score"]
+        if op["op"] == "partial_sn":
+            _partial_sn(ctx, case, op, world0, rows0)
+            continue
         try:
             sc, cached, scp = get(kind)
         except Exception as e:
@@ -284,6 +292,45 @@ def execute(case, ctx):
     for kind, c in caches.items():
         if calls.get(kind, 0) > case["cache_size"]:
             ctx.probe("cache_eviction_possible")
+
+
+def _partial_sn(ctx, case, op, world0, rows0):
+    from .c06 import project_world
+
+    n = world0["n"]
+    decl = sorted(v for v in op["declared_vars"] if v < n)
+    sub = [j for j in op["subset"] if j < len(rows0)]
+    v, ps = op["v"], [p for p in op["parents"] if p < n and p != op["v"]]
+    if not decl or not sub or v >= n:
+        return
+    kind = op["score"]
+    names0 = Names(world0)
+    sn = {names0.L(u): list(names0.states[u]) for u in decl}
+    before = {k_: list(x) for k_, x in sn.items()}
+    ctx.event("partial_sn", kind, decl, len(sub), v, ps)
+    ctx.fault("object_history")
+    try:
+        for part, ridx in (("all_rows", list(range(len(rows0)))), ("subset", sub)):
+            rows_part = [rows0[j] for j in ridx]
+            w2, rows2, _ = project_world(world0, rows_part, decl)
+            names2 = Names(w2)
+            df = make_frame(w2, names2, rows2)
+            sc = scorer(kind, df, sn, case["ess"])
+            got = float(sc.local_score(names2.L(v), [names2.L(p) for p in ps]))
+            want = ref_local(kind, w2["card"], rows2, v, ps, case["ess"])
+            ctx.checked += 1
+            if {k_: list(x) for k_, x in sn.items()} != before:
+                ctx.fail("purity", f"{PROP}:state_names_argument_changed:{kind}", {"before": sorted(map(repr, before)), "after": sorted(map(repr, sn)), "part": part})
+                before = {k_: list(x) for k_, x in sn.items()}
+            if not close(got, want, atol=1e-8, rtol=1e-9):
+                cnt = counts_table(w2["card"], rows2, v, ps)
+                if kind == "bds" and bool((cnt.sum(axis=0) == 0).any()) and close(got, ref_local("bds_as_implemented", w2["card"], rows2, v, ps, case["ess"]), atol=1e-8, rtol=1e-9):
+                    ctx.fail("closed_form", f"{PROP}:bds_unobserved_parent_configuration", {"got": got, "want": want})
+                else:
+                    ctx.fail("closed_form", f"{PROP}:local:{kind}:partial_state_names", {"got": got, "want": want, "part": part, "declared": decl, "v": v, "parents": ps, "card": w2["card"]})
+                return
+    except Exception as e:
+        ctx.fail("succeeds", f"{PROP}:raise:partial_sn:{kind}:{type(e).__name__}:{exc_site(e)}", exc_brief(e))
 
 
 def shrink_candidates(case):
